@@ -30,6 +30,7 @@ import (
 	"io"
 	mrand "math/rand"
 	"net/http"
+	"net/http/httptest"
 	"net/url"
 	"strings"
 	"sync"
@@ -150,8 +151,78 @@ func (g *c20G) flowFapiAuthorize() {
 	g.carryOn("authorize", "callback", rec, c, redirect, true)
 }
 
+// flowURIBurst: ONE fresh request_uri redeemed by 2..4 goroutines AT ONCE (the K3 window on purpose): every one of
+// them finds the pushed session, continues with its own copy of it, has initAuthnSession record the nonce claim and
+// the policy store its step (state n2/n3: the first step shows a page after StoreParameter) - on copies that must
+// share nothing with each other or with the stored session, maps included (defect D24).  The short-lived goroutines
+// carry logs of their own; the parent follows one of the answers to the code.
+func (g *c20G) flowURIBurst() {
+	c, ok := g.pickClient(nil)
+	if !ok {
+		return
+	}
+	redirect := c.uris[g.r.Intn(len(c.uris))]
+	rt := "code"
+	if g.w.profile == "fapi1" {
+		rt = "code id_token"
+	}
+	state := fmt.Sprintf("n%d", 2+g.r.Intn(2))
+	q := url.Values{"client_id": {c.id}, "response_type": {rt}, "scope": {c20Scopes}, "redirect_uri": {redirect},
+		"state": {state}, "nonce": {"n"}, "code_challenge": {thumb(c20Verifier)}, "code_challenge_method": {"S256"}}
+	m := g.form("par", "/par", g.authn(c, q))
+	g.outcome("par", m)
+	ru := str(m, "request_uri")
+	if ru == "" {
+		return
+	}
+	n := 2 + g.r.Intn(3)
+	g.w.mu.Lock()
+	g.w.burstSeq++
+	seq := g.w.burstSeq
+	g.w.mu.Unlock()
+	kids := make([]*c20G, n)
+	recs := make([]*httptest.ResponseRecorder, n)
+	target := "/authorize?" + g.w.outer(c.id, ru).Encode()
+	var wg sync.WaitGroup
+	start := make(chan struct{})
+	for i := range kids {
+		kids[i] = &c20G{w: g.w, r: mrand.New(mrand.NewSource(g.r.Int63())), log: &c20glog{g: 500000 + seq*8 + i, cnt: map[string]int{}}, base: g.base, deadline: g.deadline}
+		wg.Add(1)
+		go func(i int) {
+			defer wg.Done()
+			<-start
+			recs[i] = kids[i].call("request_uri-burst", "GET", target, "", "", nil)
+		}(i)
+	}
+	close(start)
+	wg.Wait()
+	pages := 0
+	for i, k := range kids {
+		if strings.HasPrefix(recs[i].Body.String(), "PAGE cb=") {
+			pages++
+		}
+		_ = k
+	}
+	g.count(fmt.Sprintf("request_uri-burst:requests=%d:pages=%d", n, pages))
+	if pages >= 2 {
+		g.count("request_uri-burst:several-in-the-window")
+	}
+	g.w.mu.Lock()
+	for _, k := range kids {
+		g.w.extraLogs = append(g.w.extraLogs, k.log)
+	}
+	g.w.mu.Unlock()
+	for i := range kids {
+		if strings.HasPrefix(recs[i].Body.String(), "PAGE cb=") {
+			g.carryOn("request_uri-burst", "callback", recs[i], c, redirect, false)
+			return
+		}
+	}
+}
+
 var c20FapiFlows = []c20Flow{
-	{"fapi-authorize", 44, (*c20G).flowFapiAuthorize},
+	{"fapi-authorize", 40, (*c20G).flowFapiAuthorize},
+	{"request_uri-burst", 6, (*c20G).flowURIBurst},
 	{"shared-artifacts", 14, (*c20G).flowShared},
 	{"refresh", 14, (*c20G).flowRefresh},
 	{"introspect", 10, (*c20G).flowIntrospect},
@@ -160,8 +231,8 @@ var c20FapiFlows = []c20Flow{
 }
 
 // what each FAPI provider must have served concurrently, and answered
-var c20FapiFamilies = []string{"par", "authorize", "callback", "request_uri-shared", "code", "code-replay", "refresh-rotation", "introspect", "userinfo"}
-var c20FapiOutcomes = []string{"par:ok", "authorize:code:steps=1", "authorize:code:steps=2", "authorize:in-progress", "code:ok", "refresh-rotation:ok"}
+var c20FapiFamilies = []string{"par", "authorize", "callback", "request_uri-shared", "request_uri-burst", "code", "code-replay", "refresh-rotation", "introspect", "userinfo"}
+var c20FapiOutcomes = []string{"request_uri-burst:several-in-the-window", "par:ok", "authorize:code:steps=1", "authorize:code:steps=2", "authorize:in-progress", "code:ok", "refresh-rotation:ok"}
 
 // ------------------------------------------------------------------ cold start
 
